@@ -66,6 +66,8 @@ type Enc struct {
 	oblNames    map[string]int
 	prop        string
 	assumed     map[string]bool // callee contracts / axioms used
+	resTypes    map[string]types.Type // ghost counter -> type of the (first) result of the calls it watched
+	embArrs     map[string]embArr     // embedding function -> the embedded array field it addresses
 	effectFree  map[string]bool
 	havocCalls  map[string]bool
 	nEmb        int
@@ -299,6 +301,9 @@ func (x *Enc) encodeTop() {
 				} else if (strings.HasPrefix(k, "F:") || strings.HasPrefix(k, "P:")) && strings.Contains(k, tn+":") {
 					hit = true
 				}
+			}
+			for _, ea := range x.embArrs {
+				hit = hit || (ea.key != "" && strings.HasSuffix(typeKey(ea.structT), tn))
 			}
 			if !hit {
 				x.note("havoc_preserves " + tn + " matches no heap key")
